@@ -1,6 +1,7 @@
 /-
   Driver/ExtIns.lean — the guards of the theorems "an approved insertion applies" of Props/C12.lean
-  (`insertPoint_insert_applies`, `dropPoint_drop_applies_closed`, `joinPoint_canJoin`; PM/InsertGuard.lean), evaluated
+  (`insertPoint_insert_applies`, `dropPoint_drop_applies_closed`, `joinPoint_canJoin`,
+  `canChangeType_setNodeMarkup_applies`; PM/InsertGuard.lean), evaluated
   at the answers of the real `insert_point` / `drop_point` / `join_point`.
 -/
 import Lean.Data.Json
@@ -22,18 +23,25 @@ def handleIns (st : St) (op : String) (j : Json) : Option (D (St × Json)) :=
     let d ← node (← field j "doc")
     let k ← str (← field j "k")
     let p ← nat (← field j "p")
-    let boundary := dropGuard d p
+    let boundary := match d.resolve p with
+      | some rp => rp.textOffset == 0
+      | none => true
     match k with
-    -- `insertPoint_insert_applies`: guard `insertGuard` (child boundary ∧ the parent allows the node's marks), `TextStable`;
+    -- `insertPoint_insert_applies`: guard `insertGuard` (`insideTextGuard` ∧ the parent allows the node's marks), `TextStable`;
     -- `trivial`: the model's `fits_trivially(p, p, Slice([n], 0, 0))`
     | "insert" =>
       let n ← node (← field j "node")
-      let marks := match d.resolve p with
-        | some rp => (S.nodeType (S.tyOf rp.parent)).allowsMarks n.marks
-        | none => true
+      let marks := marksAllowedAt S d p n
       let trivial := fitsTriviallyO S d p p ⟨[n], 0, 0⟩ == some true
       return (st, Json.mkObj [("ok", Json.bool (insertGuard S d p n && textStableC S)),
-        ("boundary", Json.bool boundary), ("marks", Json.bool marks), ("trivial", Json.bool trivial)])
+        ("boundary", Json.bool boundary), ("inside", Json.bool (insideTextGuard S d p [n])), ("marks", Json.bool marks),
+        ("trivial", Json.bool trivial), ("stripped", eNode (strippedAt S d p n)), ("ts", Json.bool (textStableC S)),
+        -- `insertPoint_insert_marked_top`: a top-level insert point whose parent does not allow the node's marks
+        ("top", Json.bool (topBoundary S d p)),
+        -- the hypothesis of `insertPoint_insert_succeeds_marked_partial`, on the model's Fitter
+        ("fit", Json.bool (match replaceStep S d p p ⟨[n], 0, 0⟩ with
+          | .ok (some (.replace f t sl false)) => f == p && t == p && sl == ⟨[strippedAt S d p n], 0, 0⟩
+          | _ => false))])
     -- `dropPoint_drop_applies_closed`: closed slice, answered by the first pass, `dropGuard`, `TextStable`
     | "drop" =>
       let sl ← slice (← field j "slice")
@@ -42,8 +50,10 @@ def handleIns (st : St) (op : String) (j : Json) : Option (D (St × Json)) :=
       let closed := sl.openStart == 0 && sl.openEnd == 0
       let trivial := fitsTriviallyO S d p p sl == some true
       return (st, Json.mkObj [("ok", Json.bool (closed && pass1 == some (some p) && fsize sl.content != 0 &&
-          boundary && textStableC S)),
-        ("boundary", Json.bool boundary), ("pass1", eOO pass1), ("trivial", Json.bool trivial)])
+          dropGuard S d p sl.content && textStableC S)),
+        ("boundary", Json.bool boundary), ("inside", Json.bool (insideTextGuard S d p sl.content)), ("pass1", eOO pass1),
+        ("ts", Json.bool (textStableC S)), ("closed", Json.bool closed),
+        ("trivial", Json.bool trivial)])
     -- `joinPoint_canJoin` + `canJoin_join_applies`: `can_join` at the join point, `joinGuard`, `TextStable`
     | "join" =>
       return (st, Json.mkObj [("ok", Json.bool (joinGuard S d p && textStableC S)),
@@ -51,5 +61,19 @@ def handleIns (st : St) (op : String) (j : Json) : Option (D (St × Json)) :=
           | some (some b) => ok (Json.bool b)
           | some none => ok Json.null
           | none => eRaises)])
+    -- `canChangeType_setNodeMarkup_applies`: `changeTypeGuard` with the node's own marks kept; the new type is a
+    -- non-leaf type (`type.create` then gives the empty element node the theorem speaks about)
+    | "retype" =>
+      let ty ← nat (← field j "ty")
+      let (ms, valid, nleaf, atStart) := match d.resolve p with
+        | some r =>
+          match r.parent.kids[r.index r.depth]? with
+          | some n => (n.marks, S.validContent ty n.kids, n.isLeaf, r.textOffset == 0)
+          | none => ([], false, false, false)
+        | none => ([], false, false, false)
+      -- `canChangeType_setNodeMarkup_applies` (non-leaf node, non-leaf type) / `…_leaf_applies` (leaf node at its start,
+      -- leaf type other than text): `type.create` then gives the node the theorem speaks about
+      let shape := if nleaf then (S.nodeType ty).isLeaf && !(S.nodeType ty).isText && atStart else !(S.nodeType ty).isLeaf
+      return (st, Json.mkObj [("ok", Json.bool (changeTypeGuard S d p ty ms && shape)), ("valid", Json.bool valid)])
     | _ => throw s!"bad insGuard kind {k}"
   | _ => none
